@@ -20,6 +20,8 @@ from prog import walk
 
 def run(ctx, only_solver=False):
     from rules import shared
+    if not only_solver:
+        ctx.include('month_records', shared.month_records)   # lunar months' first days are served through the month memo
     ctx.include('effect_inventory', shared.effect_inventory)   # no new process-wide mutable state (MIR statics inventory)
     p = ctx.prog
     I = ctx.interp(fuel=200000000)
